@@ -122,7 +122,7 @@ func main() {
 	if run.Tier == "thorough" {
 		ne = 400
 	}
-	for i := 0; i < ne; i++ {
+	for i := 0; i < ne && cpgen.E2EFailures < 3; i++ {
 		e2eCase(run.Seed, i)
 	}
 	run.Finish("case = one fetch history (reset + responses) over a generated transactional log; non-trivial = distinct history that delivered at least one message")
